@@ -37,7 +37,7 @@ CHECKS = [
  dict(id="C06", engine="world", level="exploration", design="§4.4, §5 C06",
       technique="deterministic simulation: issuer revocation history (revoke/unrevoke batches, publications, simulated time) with verifiers resolving possibly stale ledger versions and validating credentials; BTreeSet<u32> model per service per version",
       text="Seeded histories of revoke/unrevoke batches (sequential, clustered, random, multi-container indices, sizes up to 10^3 quick / 10^5 thorough) on 1-2 services of IOTA and did:sim documents; after every update the issuer's own document must decode to the model set and change exactly the requested indices; a verifier's resolved (possibly stale) version must decode to that version's model; credential validation must report Revoked exactly when the index is a member of the version used; legacy double-encoded endpoints must still decode.",
-      note="Legacy endpoints are produced by re-encoding the library's own current endpoint string the way pre-#1291 publishers did. Membership is compared on all touched indices, neighbours (+-1, +-65536), samples of members and random indices, and by cardinality."),
+      note="Legacy endpoints are produced by re-encoding the library's own current endpoint string the way pre-#1291 publishers did. Membership is compared on all touched indices, neighbours (+-1, +-65536), samples of members and random indices, and by cardinality. One run in eight also issues a credential with the service's status entry as a JSON Proof Token (fresh BBS+ method, shipped JwkMemStore) and validates it with JptCredentialValidator under StatusCheck::Strict (JPT twin)."),
  dict(id="C12", engine="world", level="exploration", design="§4.4, §5 C12",
       technique="deterministic simulation: status-list host with a write history and served versions over simulated time, verifiers checking credentials against possibly stale versions; bit-set model per list per version",
       text="Seeded write histories (set/clear through set_credential_status, update() and the raw list; sequentially allocated adjacent indices, out-of-range indices, both purposes, minimum / non-multiple-of-8 / larger sizes); after every write the touched byte, its neighbour bytes and samples must read back as the model says, refused writes change nothing, out-of-range access is an error (never a panic), the served JSON and the encoded list round-trip; revocation lists are monotone over the served history and the API refuses the clear; check_status_with_status_list_2021 against a fetched (possibly stale, possibly mismatching) version reports Revoked/Suspended/Ok/InvalidStatus exactly as the model predicts in all three status-check modes.",
@@ -80,7 +80,7 @@ def main():
         {"name":"res","path":"sim/src/engines/res.rs","serves_properties":["C20"],"kind_free_text":"deterministic simulation of the real Resolver under a seeded executor with gated handler futures"},
       ],
       "checks": [],
-      "notes": "All checks: bin/check <ID> <quick|thorough>; replay: bin/check --replay <file>. Exit 0 held, 1 VIOLATION, 2 harness error. VERIF_SEED seeds the batch (default fixed 0x1D5EED). Genuine defects that are recorded rather than repaired are listed in known_findings.json (findings); the checks of C02, C03, C04, C14, C16 and C20 print one KNOWN-FINDING line each for them and exit 0 (12 findings: C02 1, C03 1, C04 3, C14 1, C15 1 (Stronghold tier, thorough), C16 4, C20 1 - one of the C16 lines comes from a child-process crash probe, DESIGN 11.1); the 'fixed' list of that file records the 51 fix: commits in /repo and suppresses nothing. C09 thorough also runs generate_method / purge_method over the real StrongholdStorage with failing snapshot writes (sim-stronghold c09), C15 thorough the Stronghold sequential tier and the Miri thread tier. The simulator builds identity_storage with the jpt-bbs-plus feature (BBS+ keys in the shipped store). See DESIGN.md (7.1 findings, 11 corrections, 12 seeded-change campaign: 164 confirmed changes (161 caught by the quick check of their property, 3 documented) kept under seeded/, sub-agents' reports of genuine defects under seeded/genuine/, tools/seeded_regress.sh re-evaluates them in a scratch worktree).",
+      "notes": "All checks: bin/check <ID> <quick|thorough>; replay: bin/check --replay <file>. Exit 0 held, 1 VIOLATION, 2 harness error. VERIF_SEED seeds the batch (default fixed 0x1D5EED). Genuine defects that are recorded rather than repaired are listed in known_findings.json (findings); the checks of C02, C03, C04, C14, C16 and C20 print one KNOWN-FINDING line each for them and exit 0 (12 findings: C02 1, C03 1, C04 3, C14 1, C15 1 (Stronghold tier, thorough), C16 4, C20 1 - one of the C16 lines comes from a child-process crash probe, DESIGN 11.1); the 'fixed' list of that file records the 53 fix: commits in /repo and suppresses nothing. C09 thorough also runs generate_method / purge_method over the real StrongholdStorage with failing snapshot writes (sim-stronghold c09), C15 thorough the Stronghold sequential tier and the Miri thread tier. The simulator builds identity_storage with the jpt-bbs-plus feature (BBS+ keys in the shipped store). See DESIGN.md (7.1 findings, 11 corrections, 12 seeded-change campaign: 164 confirmed changes (161 caught by the quick check of their property, 3 documented) kept under seeded/, sub-agents' reports of genuine defects under seeded/genuine/, tools/seeded_regress.sh re-evaluates them in a scratch worktree).",
       "not_applicable": [],
     }
     engines = {}
